@@ -290,6 +290,10 @@ def run(tier):
            ". thorough: every graph up to isomorphism (node x relation permutations) with <= 5 live edges, and every graph up to isomorphism "
            "with <= 4 edge versions in any soft-delete / re-link pattern (up to 3 versions per edge; those with a deleted version are replayed, "
            "the others are part of the first family)")
+        + ". Every graph with at least two events is rebuilt under extra edge-insertion orders (the canonical history reversed, then seeded "
+          "orders; %d builds in all) and queried again at the order-independent times (now, before everything, after the last event); the "
+          "6-node families (two routes of different length + tail, in both edge directions; seeded 5..8-edge graphs) are emitted at those times only"
+          % totals.get("builds", 0)
         + ". Per graph: every (source,target) x non-empty relation subset x depth of DepthSeq x time in {now, before all, each event boundary "
           "(exactly at the event and at the last instant before the next)} to FindPath; every root x relation subset x depth x time to "
           "VExtractSubgraph; every root x subset x direction {out,in,both,default} x depth to VSearch+GraphQuery (now); every root x relation "
@@ -298,6 +302,8 @@ def run(tier):
     chk.assumptions += [
         "graphs have 4 nodes and 2 relations (7 nodes for the hand-made chain family that exercises the depth clamp 5, default depths and paths of up to 6 hops; "
         "a hand-made 4-node family of self-referential graphs exercises the traversal cap 10)",
+        "insertion order: the answers of the specification do not depend on the order of a history's events, the traversal order of the "
+        "implementation does; besides the canonical history each graph is replayed under 1-3 other orders, not under all of them",
         "the history of a graph is the canonical one (link first versions in code order, soft-delete, re-link, soft-delete, re-link); at most 3 versions per "
         "(source,target,relation); edge weights/properties do not vary; no hard deletes, no node deletes (C12), no restart (C01)",
         "abstract times are refined to the real timestamps read back from VGetEdges: a query at abstract time i is issued at the timestamp of event i and at "
